@@ -88,8 +88,6 @@ def run(ctx: Ctx, driver: Driver):
     rng = ctx.rng
     rb = lambda n: bytes(rng.randrange(256) for _ in range(n))  # noqa: E731
     cryptoval.validate(ctx, driver, 4)
-    for c in load_corpus(ID):
-        pass
     cases, outs, lines = [], [], []
     vcases, vouts, vlines = [], [], []
     pins = ["031-45-154", "111-22-333", "000-00-000", "987-65-432"]
@@ -135,6 +133,30 @@ def run(ctx: Ctx, driver: Driver):
         vouts.append(str(got).lower())
         vlines.append(f"srp.verify {hx(b'Pair-Setup')} {hx(pin_ctl.encode())} {hx(salt)} {hx(Bb)} {a} {hx(M)}")
 
+    # ---- corpus first: exchanges found once by tools/mk_c02_corpus.py whose A, B, S, K, M1 or M2 start with one or two
+    # zero bytes (a 1-in-256 / 1-in-65536 event each); every claimed leading zero is re-derived from the reference
+    # server before the case is used, so the corpus is an index into the input space, not a trusted table
+    for c in load_corpus(ID):
+        salt, b, ab = bytes.fromhex(c["salt"]), int(c["b"]), bytes.fromhex(c["a"])
+        srv0 = refacc.SrpServer(c["pin"], salt, b)
+        A0 = refacc.PAD(pow(refacc.G, int.from_bytes(ab, "big"), refacc.N3072))
+        srv0.on_A(A0)
+        lead0 = {"A": A0, "B": refacc.PAD(srv0.B), "S": refacc.PAD(srv0.S), "K": srv0.K, "M1": srv0.M1, "M2": srv0.M2}
+        for kd in c["kinds"]:
+            nz = 2 if kd.endswith("2") and kd not in ("M2",) else 1
+            name = kd[:-1] if nz == 2 else kd
+            if lead0[name][:nz] != bytes(nz):
+                raise RuntimeError(f"corpus/C02 entry does not have the leading zero it claims ({kd}): {c}")
+        tag = "corpus-" + "+".join(c["kinds"])
+        s2, c2, Bb2, a2 = one(c["pin"], c["pin"], salt, b, ab, tag)
+        verify_case(s2, c2, c["pin"], salt, Bb2, a2, s2.M2, True, "correct-leading-zero")
+        if s2.M2[0] == 0:
+            verify_case(s2, c2, c["pin"], salt, Bb2, a2, s2.M2.lstrip(b"\0"), True, "leading-zero-stripped")
+        m = bytearray(s2.M2)
+        m[-1] ^= 1
+        verify_case(s2, c2, c["pin"], salt, Bb2, a2, bytes(m), False, "bitflip")
+        through_generators(ctx, c["pin"], salt, b, ab, tag)
+        ctx.dist["corpus"] += 1
     n = ctx.budget(60, 1200)
     for i in range(n):
         pin = rng.choice(pins)
